@@ -5,7 +5,7 @@ import collections
 import re
 from typing import Any, Dict
 
-from hv import core, cpdrv, drv
+from hv import gen_sim, core, cpdrv, drv
 from hv.ref import cp as refcp
 
 ID = "C10"
@@ -38,6 +38,11 @@ def gen_case(rnd, tier: str, i: Any) -> Dict[str, Any]:
     if rnd.random() < 0.35:
         # annotations (events without graph nodes) nested in one another around operators, inside operators
         over.update(annotation_nest=True, p_annotation=0.45, max_depth=rnd.choice([4, 5, 6]))
+    if rnd.random() < 0.3:
+        # operators whose shortened name is the empty string (python frames such as '<built-in method run_backward of ...>'): they are
+        # host events like any other (cpu_bound)
+        over["ops_pool"] = rnd.sample(gen_sim.OPS, 3) + rnd.sample(["<built-in method run_backward of torch._C._EngineBase object at 0x7f>", "<lambda>",
+                                                                   "(anonymous)", "<forward>"], 2)
     return cpdrv.gen_case(rnd, tier, i, **dict(dict(max_depth=rnd.choice([3, 4, 5]), ops_per_step=rnd.choice([(2, 5), (3, 8)])), **over))
 
 
